@@ -129,7 +129,8 @@ def fault_slice(u, tier):
     selffail = [u.call("export", "i32", "default"), u.call("export_all", "Vec<Alpha>", "default"),
                 u.call("export_all", "TooHigh", "default"), u.call("export", "TooHigh", "default"),
                 u.call("export_all", "UsesHigh", "default"), u.call("export_all_to", "TooHigh", "abs"),
-                u.call("export_all", "ViaHigh", "default"), u.call("export_all_to", "ViaHigh", "abs")]
+                u.call("export_all", "ViaHigh", "default"), u.call("export_all_to", "ViaHigh", "abs"),
+                u.call("export", "HighExisting", "default"), u.call("export_all_to", "HighExisting", "abs")]
     calls, follow = [], []
     pre_idx, post_idx, self_idx, put_idx = [], [], [], []
     for c in pre:
